@@ -21,7 +21,7 @@ def repo_include():
 
 
 def compile_ir(cfg, wrappers, tag, extra_flags=(), extra_includes=(), keep=True):
-    """-> (ir_text, compiled_wrappers, dropped [(wrapper, first error line)])"""
+    """-> (ir_text, compiled_wrappers, dropped [(wrapper, first error line)], cmd, ll_path)"""
     os.makedirs(BUILD, exist_ok=True)
     dropped = []
     ws = list(wrappers)
@@ -40,7 +40,7 @@ def compile_ir(cfg, wrappers, tag, extra_flags=(), extra_includes=(), keep=True)
             if not keep:
                 os.unlink(cpp)
                 os.unlink(ll)
-            return text, ws, dropped, cmd
+            return text, ws, dropped, cmd, ll
         # map diagnostics to wrapper lines
         bad = {}
         cur_err = None
